@@ -20,6 +20,9 @@ CHECKS = {
    text='Inductive lemmas on one forward / inverse butterfly iteration from an arbitrary loop state (all j, len, zeta, coefficient values within a symbolic bound B): exact output equations, frame, no i32/i64 overflow, magnitude growth; copy-in / final scaling of inv_ntt; to_mont and mat_vec_mul closures; then every inv_ntt / to_mont / mat_vec_mul call site of the crate is shown to respect the admissible input magnitude (producer found by tracing the MIR). Composition to "equals the negacyclic product" uses linearity + a concrete basis premise (stated).',
    note='trusted: MIR dump, translator, z3; composition step is pen-and-paper; basis premise is a concrete native run.', ref='DESIGN.md §5 C18'),
 }
+CHECKS['C16'] = dict(cat='model_checking', tech='bounded model checking of the real zeroising Drop / Zeroize code (Kani/CBMC, SAT) for every content and read-back position, plus a dataflow skeleton of the derived Drop bodies extracted from the MIR',
+   text='Kani executes the real volatile-write erasure of R, T, [u8;32], [u8;64] and [T;2] for every content and proves every element zero afterwards; the E2 skeleton of the derived Drop/Zeroize bodies of PrivateKey, PublicKey, R, T shows that every field of each struct is handed to a zeroising call on the single path of Drop (so a #[zeroize(skip)] or a removed derive is reported). The monolithic PrivateKey<1,1> / PublicKey<1,1> drop harnesses run in the thorough tier.',
+   note='only the inline-asm optimisation barrier is stubbed; zeroize crate AssertZeroize forwarding trusted; real (K,L) by genericity.', ref='DESIGN.md §5 C16')
 NA = [
  ('C14', 'whole-pipeline branch/address trace equality needs the compiled artefact executed through real SHAKE for all RNG outputs; no binary/LLVM-level symbolic executor is available and MIR-level control flow is stricter than the binary (Ord::max, abs_diff) - outside solver-based checking of the source here'),
  ('C17', 'quantifies over 28 cargo feature configurations whose observable is rustc\'s exit status and a known-answer digest; cfg resolution happens before any MIR exists, so there is no symbolic variable for a solver - deciding it means enumerating concrete builds'),
